@@ -8,6 +8,8 @@ HOOK_COMMITS = ['a275b0b']
 ENGINES = [
  {'name': 'E-GRAM', 'path': 'engines/gram_main.cpp', 'serves_properties': ['C01', 'C02', 'C05', 'C08', 'C09', 'C11', 'C16'],
   'kind_free_text': 'explicit-state exploration: enumerates every grammar inside stated bounds, injects it into a compiled instantiation of the real ctpg::parser, compares the LR(1) automaton the real analyzer builds with a reference canonical LR(1) automaton state by state, then runs the real parse() on every string up to a length bound against a reference driver'},
+  {'name': 'E-RX', 'path': 'engines/rx_main.cpp', 'serves_properties': ['C03', 'C04', 'C10', 'C17'],
+  'kind_free_text': 'explicit-state exploration: enumerates pattern ASTs / term sets / pattern strings inside stated bounds, drives the real regex front-end, dfa_builder and lexer loop, and explores the emitted automaton together with a reference automaton (reachable state pairs x all 256 bytes)'},
 ]
 
 # id -> (technique, level text, level note, design section)
@@ -33,6 +35,18 @@ CHECKS = {
  'C05': ('exhaustive enumeration of S/R grammars x precedence/associativity assignments, resolved table and tree shapes vs documented rule',
          'Bounded exhaustive model checking: all grammars in the bounds with a shift/reduce cell, all assignments of precedence levels and associativities to the terms involved and explicit rule precedences; table compared cell by cell, then all strings parsed and grouping compared.',
          'rule[0] is indistinguishable from "no explicit precedence" in the API and is not explored.', '3 C05'),
+ 'C03': ('exhaustive enumeration of pattern ASTs; product-automaton reachability of the emitted DFA against a reference DFA over all 256 bytes',
+         'Bounded exhaustive model checking over pattern space (AST node bound) with an unbounded verdict over input space: language equality is decided on the automata, so strings of every length are covered for each explored pattern.',
+         'Broad genuine defect (in-place merge is not a determinisation): affected patterns are listed instance by instance in known/C03_instances.txt; any other failing pattern is a violation.', '3 C03'),
+ 'C04': ('exhaustive enumeration of ordered term sets x inputs x whitespace options; merged lexer automaton vs product of per-term reference automata; real parse vs reference tokenizer',
+         'Bounded exhaustive model checking: term sets up to size 2-3 from a fixed pool, inputs up to length 4-5, three option combinations; the automaton-level comparison covers prefixes of every length.',
+         'Term sets affected by the regex merge defect are listed in known/C04_instances.txt.', '3 C04'),
+ 'C10': ('exhaustive enumeration of inputs x whitespace options over multi-line lexeme term sets, positions vs an independent position calculator and the documented driver',
+         'Bounded exhaustive model checking over input space (length <=5 quick, <=7 thorough, 7-byte alphabet incl. tab, CR, LF) for 3 term sets x 2 grammars (one with error recovery).',
+         'Uses the lexer frame (a compiled parser whose lexer table is rebuilt at run time through the library\'s own builder calls).', '3 C10'),
+ 'C17': ('exhaustive enumeration of all strings up to a length bound as patterns; three-valued reference classifier; checked buffer for reads past the end',
+         'Bounded exhaustive model checking over pattern-string space: every string up to length 4 (quick) / 5 and 7 over metacharacters (thorough).',
+         'Undeclared-symbol grammars (second half of the statement) are decided by the compile-time program enumerator.', '3 C17'),
 }
 
 NOT_YET = 'check not built yet (work in progress; see DESIGN.md section 11)'
